@@ -86,8 +86,9 @@ func verifFiles(F, B, P int, tombMode int) []*verifTSM {
 			}
 			f.blocks = append(f.blocks, [2][]int64{ts, vs})
 		}
-		// tombMode: 0 none, 1 any file may carry a tombstone range, 2 only the oldest file may
-		if (tombMode == 1 || (tombMode == 2 && fi == 0)) && vrt.Choose(vrt.N("tomb", fi), 0, 1) == 1 {
+		// tombMode: 0 none, 1 any file may carry a tombstone range, 2 only the oldest file may,
+		// 3 the newest file carries one
+		if tombMode == 3 && fi == F-1 || (tombMode == 1 || (tombMode == 2 && fi == 0)) && vrt.Choose(vrt.N("tomb", fi), 0, 1) == 1 {
 			lo, hi := vrt.Int64(vrt.N("tomb_min", fi)), vrt.Int64(vrt.N("tomb_max", fi))
 			vrt.Assume(lo <= hi)
 			f.tombs = []TimeRange{{Min: lo, Max: hi}}
